@@ -51,7 +51,7 @@ CHECKS = {
 
  "C12": dict(cat="exploration", ref="DESIGN.md section 3 C12",
    technique="deterministic simulation with fault injection on every byte seam: seeded random and structure-preserving mutated encodings into 11 decoders x 3 codecs, decoded results pushed into the consuming protocol step, foreign well-formed items routed into every step, catalogue values planted in every field, oversize parameters; catch_unwind no-panic monitor + refusal oracle",
-   text="No library call may panic or hang on random bytes, inputs of every length 0..len+8, mutated valid encodings (flip, rewrite, truncate, extend, delete, splice, field constants/swaps), planted invalid or extreme-valid group values, items of the wrong kind/session/suite delivered to any step, or parameter lengths 0..131072; lengths above 65535 must be refused by the call that takes them (identities, context) or by the finish step (password), never wrapped or truncated. The stand-alone key-pair API (PublicKey / PrivateKey / KeyPair decoders, direct and external key types, and the decoder of a server setup whose external key container is 200 bytes long) gets wrong-length, random, mutated and catalogue inputs; Argon2 instances with an explicit output length shorter/equal/longer than Nh run through registration and login. The no-panic monitor also runs over samples of all other checks' worlds.",
+   text="No library call may panic or hang on random bytes, inputs of every length 0..len+8, single-bit flips of the bincode form of the stored kinds, mutated valid encodings (flip, rewrite, truncate, extend, delete, splice, field constants/swaps), planted invalid or extreme-valid group values, items of the wrong kind/session/suite delivered to any step, or parameter lengths 0..131072; lengths above 65535 must be refused by the call that takes them (identities, context) or by the finish step (password), never wrapped or truncated. The stand-alone key-pair API (PublicKey / PrivateKey / KeyPair decoders, direct and external key types, and the decoder of a server setup whose external key container is 200 bytes long) gets wrong-length, random, mutated and catalogue inputs; Argon2 instances with an explicit output length shorter/equal/longer than Nh run through registration and login. The no-panic monitor also runs over samples of all other checks' worlds.",
    note="sampled; panics inside the harness are harness errors (exit 2); abusive RNGs and allocation failure not injected"),
  "C13": dict(cat="fault_enumeration", ref="DESIGN.md section 3 C13",
    technique="crash-point enumeration in a deterministic simulation: every assignment of {none, native, bincode, JSON} reloads to the five persistence points (1024 schedules), setup reload before the k-th server op, chained permanent reloads; label-derived tapes; oracle = event log equal to the uninterrupted run",
@@ -63,7 +63,7 @@ CHECKS = {
    note="fault index enumerated over n in {1,2} per finish step; pairs enumerated; worlds seeded"),
  "C17": dict(cat="exploration", ref="DESIGN.md section 3 C17",
    technique="deterministic simulation over the RNG seam: recorded tapes replayed equal / independent / as prefixes at every draw boundary, single-draw replacement, and a generator whose try_fill_bytes errors; values compared by role",
-   text="Equal tapes give identical logs; on independent tapes every value meant to be random differs and none coincide within a run (incl. a second setup created with the same static key); for every randomised op and draw boundary k the reproduced values grow monotonically from none (k=0) to all (k=m); the hidden fake masking key is shown to be drawn by single-draw replacement, from at least Nh bytes of tape; the world up to each randomised op run twice in a row gives identical results (state kept between calls); no op may succeed with different output when the generator reports errors; every pair of values of one call that are meant to be independently random is moved separately by some single perturbed draw.",
+   text="Equal tapes give identical logs; on independent tapes every value meant to be random differs and none coincide within a run (incl. a second setup created with the same static key); for every randomised op and draw boundary k the reproduced values grow monotonically from none (k=0) to all (k=m); the hidden fake masking key is shown to be drawn by single-draw replacement, from at least Nh bytes of tape; the world up to each randomised op run twice in a row gives identical results (state kept between calls); the stand-alone key sampler KeGroup::random_sk is a function of its tape and differs on independent tapes; no op may succeed with different output when the generator reports errors; every pair of values of one call that are meant to be independently random is moved separately by some single perturbed draw.",
    note="tests tape-dependence and non-repetition, not unpredictability; sampled worlds"),
  "C18": dict(cat="fault_enumeration", ref="DESIGN.md section 3 C18",
    technique="deterministic simulation with the SecretKey trait as seam: SimHsm (raw-scalar and opaque-handle serialization) vs direct key on equal tapes compared event by event, seam call log, and the seam failing at the n-th fallible call for every op and every n",
